@@ -34,6 +34,15 @@ THEMES["cover"] = ["<b>", "<i>", "<a>", "<nobr>", "<p>", "<div>", "<applet>", "<
                    "</select>", "</body>", "</html>", "</head>", "x", " ", "<!DOCTYPE html>", "<h1>", "<xmp>", "<plaintext>", "</applet>"]
 THEMES["cover_afe"] = ["<b>", "<i>", "<a>", "<nobr>", "<p>", "<div>", "<applet>", "<object>", "<table>", "<td>", "</b>", "</p>", "</applet>",
                        "</object>", "x", "</a>", "</div>", "<b id=1>"]
+THEMES["frameset"] = ["<frameset>", "</frameset>", "</html>", "<noframes>", "</noframes>", "x", " ", "<frame>", "<html>", "<body>", "</body>",
+                      "<!--c-->", "<head>"]
+PUMP_NAMES = """a b i nobr font p div span li dd dt ul ol dl h1 form button applet object marquee table caption colgroup tbody tr td th
+select option optgroup ruby rt rp rb rtc pre listing blockquote center address fieldset details summary menu nav section article
+aside header footer main figure dialog svg math mi mtext g desc foreignobject annotation-xml x-y em strong small code label
+frameset noscript template""".split()
+THEMES["pump_tokens"] = ["<%s>" % n for n in PUMP_NAMES]
+THEMES["pump_prefixes"] = ["", "<table>", "<table><tr><td>", "<select>", "<svg>", "<math>", "<ruby>", "<ul>", "<svg><foreignObject>", "<frameset>",
+                           "<table><caption>", "<button>", "<dl>"]
 CONTEXTS = {
     "doc": [None],
     "common": [None, "div", "td", "select", "table"],
@@ -51,7 +60,7 @@ def generate():
              "ThemeFrags(t) =="]
     arms = []
     for name, frs in THEMES.items():
-        arms.append('    t = "%s" -> {%s}' % (name, ", ".join(tla_seq(f) for f in frs)))
+        arms.append('    t = "%s" -> {%s}' % (name, ", ".join(tla_seq(f) for f in sorted(set(frs)))))
     lines.append("  CASE " + "\n    [] ".join(a.strip() for a in arms))
     lines.append("ThemeContexts(c) ==")
     arms = []
